@@ -96,14 +96,19 @@ func TimeFromTime64(t Time64, t0 time.Time) time.Time {
 	return time.Unix(sec, nsec).UTC()
 }
 
+// Before and After compare timestamps that lie within half an era (2^31 s)
+// of each other, also across an era rollover (serial number arithmetic).
+
 func (t Time64) Before(u Time64) bool {
-	return t.Seconds < u.Seconds ||
-		t.Seconds == u.Seconds && t.Fraction < u.Fraction
+	d := int32(t.Seconds - u.Seconds)
+	return d < 0 ||
+		d == 0 && t.Fraction < u.Fraction
 }
 
 func (t Time64) After(u Time64) bool {
-	return t.Seconds > u.Seconds ||
-		t.Seconds == u.Seconds && t.Fraction > u.Fraction
+	d := int32(t.Seconds - u.Seconds)
+	return d > 0 ||
+		d == 0 && t.Fraction > u.Fraction
 }
 
 func ClockOffset(t0, t1, t2, t3 time.Time) time.Duration {
